@@ -114,7 +114,7 @@ def PitfallFormula(v, d, ny, nz, k, formula_class=CNF):
 
     def shift_edgelit(j, lit):
         sign = lit // abs(lit)
-        return sign * X[j][0] + lit - 1
+        return sign * (X[j][0] + abs(lit) - 1)
 
     # Hard part
     # Copy the Tseitin formula for k times
